@@ -61,9 +61,17 @@ def run(rep):
                              'level': 'verdict', 'max_steps': -1, 'timeout_s': 30,
                              'order': (c['id'] + li) % (4 if thorough else 2)})
     outs = P.run_jobs(jobs, 'c03')
+    recs0 = list(P.read_records(outs))
+    # a proof cut by the harness watchdog under machine load is re-run alone with a generous limit before it is judged
+    slow = {r['id'] for r in recs0 if r['raised'] == 'Watchdog'}
+    if slow:
+        again = [dict(j, timeout_s=300) for j in jobs if j['id'] in slow]
+        redo = {r['id']: r for r in P.read_records(P.run_jobs(again, 'c03retry', nproc=4))}
+        recs0 = [redo.get(r['id'], r) for r in recs0]
+        rep.cov['watchdog_retries'] = len(slow)
     runs = defaultdict(list)
     argstr = {}
-    for rec in P.read_records(outs):
+    for rec in recs0:
         cid = int(rec['id'].split('/')[0])
         argstr[cid] = rec['argstr']
         runs[cid].append({'logic': rec['logic'], 'g': rec['g'], 'r': rec['r'], 'mode': rec['mode'],
